@@ -59,7 +59,7 @@ Creating == {"SetValue", "Set", "GetOrCreate", "SetOrRemove"}
 
 VARIABLES mode,      \* the allocation discipline of this behaviour
           layout,    \* KeySet -> Slots: the shard slot of every key (the hash)
-          want,      \* G -> 1..MaxOps: number of calls of each goroutine
+          want,      \* G -> 1..MaxOps: number of calls of each goroutine (chosen at Init when Forced)
           slot,      \* Slots -> 0..MaxInner: the inner map stored in the slot (0: not allocated)
           inner,     \* 1..MaxInner -> content of that inner map
           nin,       \* inner maps built so far
@@ -87,7 +87,7 @@ ShardInit ==
   /\ Init
   /\ mode \in Modes
   /\ layout \in Layouts
-  /\ want \in [G -> 1..MaxOps]
+  /\ want \in (IF Forced THEN [G -> 1..MaxOps] ELSE {[g \in G |-> MaxOps]})   \* free: any prefix is a state anyway
   /\ slot = [s \in Slots |-> 0]
   /\ inner = [i \in 1..MaxInner |-> EmptyMap]
   /\ nin = 0 /\ length = 0 /\ wl = 0
